@@ -105,6 +105,9 @@ IsVirtual(n) == desc.nodes[n].kind = "virtual"
 (* validity of its producer's result                                                                                 *)
 IsTimestamp(n) == "ts" \in DOMAIN desc.nodes[n] /\ desc.nodes[n].ts
 IsMutated(n) == "mut" \in DOMAIN desc.nodes[n] /\ desc.nodes[n].mut
+(* must-scan-after-paths of a directory input: nodes brought up to date before the directory is looked at (the way a *)
+(* command that writes INTO a directory is ordered before a consumer of the whole directory)                         *)
+Msa(n) == IF "msa" \in DOMAIN desc.nodes[n] THEN desc.nodes[n].msa ELSE <<>>
 Mutates(c) == IF "mutates" \in DOMAIN desc.cmds[c] THEN desc.cmds[c].mutates ELSE ""
 Producers(n) == {c \in Cmds : \E i \in 1..Len(Cmd(c).outs) : Cmd(c).outs[i] = n}
 ProducerOf(n) == CHOOSE c \in Producers(n) : TRUE
@@ -205,6 +208,27 @@ RunBody(F, c) ==
 -----------------------------------------------------------------------------
 (* Per-rule client semantics *)
 
+(* A child of a directory input that is the OUTPUT of a command (a command writing into the directory, ordered before *)
+(* the consumers by must-scan-after-paths): the signature merges the child's NODE VALUE - the info its producer       *)
+(* recorded, or "failed input" / "skipped" when the producer did not succeed - not a fresh stat.                      *)
+ProducedAt(q) == {n \in DOMAIN desc.nodes : desc.nodes[n].path = q /\ desc.nodes[n].kind = "file" /\ Producers(n) # {}}
+ChildObs(F, M, q) ==
+  IF ProducedAt(q) = {} THEN F[q].s
+  ELSE LET v == Get(M, NK(CHOOSE n \in ProducedAt(q) : TRUE)).val IN
+       (* (integers throughout: TLC compares observations for equality) *)
+       CASE v.k = "ExistingInput" -> v.i[1]
+         [] v.k = "FailedInput" -> 0 - 1001
+         [] v.k = "SkippedCommand" -> 0 - 1002
+         [] v.k = "MissingOutput" -> 0 - 1003
+         [] OTHER -> 0 - 1000
+RECURSIVE TreeObsM(_,_,_,_,_)
+TreeObsM(F, M, p, filt, own) ==
+  IF ~Exists(F, p) THEN <<"missing">>
+  ELSE IF F[p].t # "dir" THEN <<"file", F[p].s>>
+  ELSE LET kids == {q \in DOMAIN F : F[q].par = p /\ Visible(F, q, filt)}
+       IN <<"dir", IF filt = <<>> /\ own THEN F[p].s ELSE 0,
+            [q \in kids |-> <<ChildObs(F, M, q), IF F[q].t = "dir" THEN TreeObsM(F, M, q, filt, TRUE) ELSE <<>> >>] >>
+
 (* A directory input whose path is ALSO the output of a command (the documented idiom: `tool: mkdir, outputs: ["d"]`   *)
 (* next to `inputs: ["d/"]`): the listing rule requests the node of the path itself, which is then a produced node -    *)
 (* its value is the info the producer recorded, not a fresh stat.  desc.nodes[n].rootnode names that node ("" if the    *)
@@ -213,14 +237,18 @@ RootNode(n) == IF "rootnode" \in DOMAIN NodeRec(n) THEN NodeRec(n).rootnode ELSE
 DirObs(F, M, n) ==
   LET p == PathOf(n)  filt == NodeRec(n).filt  rn == RootNode(n) IN
   IF NodeRec(n).kind = "dir"
-  THEN (IF rn = "" THEN <<VInvalid, TreeObs(F, p, filt)>>
-        ELSE IF filt # <<>> THEN <<VInvalid, TreeObsO(F, p, filt, FALSE)>>   \* (a filtered listing stats the path itself)
+  THEN (IF rn = "" THEN <<VInvalid, TreeObsM(F, M, p, filt, TRUE)>>
+        ELSE IF filt # <<>> THEN <<VInvalid, TreeObsM(F, M, p, filt, FALSE)>>   \* (a filtered listing stats the path itself)
         ELSE LET rv == Get(M, NK(rn)).val IN
              (* the unfiltered listing propagates a missing / failed / skipped root node without looking at the directory *)
              IF rv.k \in {"MissingInput", "MissingOutput"} THEN <<VMissingIn, <<"-">> >>
              ELSE IF rv.k \in {"FailedInput", "SkippedCommand"} THEN <<rv, <<"-">> >>
-             ELSE <<rv, TreeObsO(F, p, filt, FALSE)>>)
-  ELSE <<VInvalid, StructObs(F, p, filt)>>
+             ELSE <<rv, TreeObsM(F, M, p, filt, FALSE)>>)
+  ELSE (* structure: the unfiltered listing propagates a missing / failed / skipped root node the same way; an existing *)
+       (* root enters by its type only, a filtered listing stats the path itself                                     *)
+       IF rn # "" /\ filt = <<>> /\ Get(M, NK(rn)).val.k \in {"MissingInput", "MissingOutput"} THEN <<VMissingIn, <<"-">> >>
+       ELSE IF rn # "" /\ filt = <<>> /\ Get(M, NK(rn)).val.k \in {"FailedInput", "SkippedCommand"} THEN <<Get(M, NK(rn)).val, <<"-">> >>
+       ELSE <<VInvalid, StructObs(F, p, filt)>>
 DirVal(F, M, n) == IF NodeRec(n).kind = "dir" THEN VTreeSig(DirObs(F, M, n)) ELSE VStructSig(DirObs(F, M, n))
 
 (* is the stored value v of key k still valid against the file system F ?  (Rule::isResultValid) *)
@@ -302,8 +330,11 @@ Ensure(k, S0) ==
   IF k \in S0.done \/ S0.aborted THEN S0
   ELSE LET (* scanning a directory input whose path is itself produced first brings the node of that path up to date *)
            (* (it is a dependency of the listing sub-rule); only a changed OBSERVATION re-derives the input node     *)
-           S == IF k.t = "N" /\ NodeRec(k.n).kind \in {"dir", "dirstruct"} /\ Producers(k.n) = {} /\ RootNode(k.n) # ""
-                THEN Ensure(NK(RootNode(k.n)), S0) ELSE S0
+           (* (DirectoryInputNodeTask::start: the must-scan-after nodes first, then the signature request)             *)
+           S == IF k.t = "N" /\ NodeRec(k.n).kind \in {"dir", "dirstruct"} /\ Producers(k.n) = {}
+                THEN LET Sa == IF NodeRec(k.n).kind = "dir" THEN EnsureAll([i \in 1..Len(Msa(k.n)) |-> NK(Msa(k.n)[i])], S0) ELSE S0
+                     IN IF RootNode(k.n) # "" THEN Ensure(NK(RootNode(k.n)), Sa) ELSE Sa
+                ELSE S0
            r == Get(S.mem, k) IN
        IF r.built = 0 THEN RunRule(k, S, "NeverBuilt", NoKey)
        ELSE IF r.sig # SigOf(k) THEN RunRule(k, S, "SignatureChanged", NoKey)
